@@ -46,6 +46,22 @@ int main(int argc,char **argv){
         if(!strncmp(t,"lp=",3)){ double v=atof(t+3); ret=vorbis_encode_ctl(&vi,OV_ECTL_LOWPASS_SET,&v); }
         else if(!strncmp(t,"imp=",4)){ double v=atof(t+4); ret=vorbis_encode_ctl(&vi,OV_ECTL_IBLOCK_SET,&v); }
         else if(!strcmp(t,"nocouple")){ int v=0; ret=vorbis_encode_ctl(&vi,OV_ECTL_COUPLING_SET,&v); }
+        else if(!strcmp(t,"rm2null"))ret=vorbis_encode_ctl(&vi,OV_ECTL_RATEMANAGE2_SET,NULL);     /* management off; the limits stay in vorbis_info (oggenc -b) */
+        else if(!strncmp(t,"rm2=",4)){
+          /* max_kbps:avg_kbps:min_kbps:reservoir_bits:bias_percent, 'x' keeps what RATEMANAGE2_GET returned (oggenc -q N -M max, small reservoirs, ...) */
+          struct ovectl_ratemanage2_arg a; char f[5][24]; int k,nf=0; const char *q=t+4;
+          for(k=0;k<5;k++){ int l=0; while(*q&&*q!=':'&&l<23)f[k][l++]=*q++; f[k][l]=0; nf++; if(*q==':')q++; else break; }
+          ret=vorbis_encode_ctl(&vi,OV_ECTL_RATEMANAGE2_GET,&a);
+          if(!ret){
+            a.management_active=1;
+            if(nf>0&&f[0][0]!='x')a.bitrate_limit_max_kbps=atol(f[0]);
+            if(nf>1&&f[1][0]!='x')a.bitrate_average_kbps=atol(f[1]);
+            if(nf>2&&f[2][0]!='x')a.bitrate_limit_min_kbps=atol(f[2]);
+            if(nf>3&&f[3][0]!='x')a.bitrate_limit_reservoir_bits=atol(f[3]);
+            if(nf>4&&f[4][0]!='x')a.bitrate_limit_reservoir_bias=atof(f[4])/100.;
+            ret=vorbis_encode_ctl(&vi,OV_ECTL_RATEMANAGE2_SET,&a);
+          }
+        }
         else if(!strcmp(t,"nocomment"))ncomments=0;
         else if(!strncmp(t,"comments=",9))ncomments=atoi(t+9);
         else if(!strncmp(t,"blocks=",7)){ nblocks=atoi(t+7); if(nblocks<1)nblocks=1; if(nblocks>4)nblocks=4; }
